@@ -33,12 +33,21 @@ def run(ctx):
         rms = [bi for bi, t in wre.calls() if bi in wre.normal_blocks() and call_matches(t, ['ref_count::RefCountTable::write_remove_plan'])]
         first = [x for x in rms if x not in wre.reaches(x) and not any(y != x and x in wre.reaches(y) for y in rms)]
         loops = [lp for lp in lib.for_loops_over(wre, '.Reindex.queue') if any(x in wre.reachable_from([lp['some']], removed={lp['head']}) for x in rms)]
-        ctx.ob('8a0 removal-anchors', 'anchor', wre.path, 'the removing branch removes the found entry and sweeps the queued tables in a loop', len(first) >= 1 and len(loops) >= 1, 'first %s loops %s' % (first, [lp['head'] for lp in loops]))
+        sweep = set(lp['head'] for lp in loops)
+        # the sweep may live in a helper: a call that hands the reindex queue to a function containing such a loop
+        for bi, t in wre.calls():
+            for n in call_names(t):
+                hb = F.body(n)
+                if bi in wre.normal_blocks() and hb is not None and hb is not wre and lib.confined_through(F, n, {wre.path}):
+                    hl = [lp for lp in lib.for_loops_over(hb) if lib.sites_reaching(hb, ['ref_count::RefCountTable::write_remove_plan'])]
+                    if hl and any('.Reindex.queue' in lib.receiver_fields(wre, t, ai) or 'Reindex' in str(wre.locals[op_place(a)[0]]) for ai, a in enumerate(t['a']) if op_place(a) is not None):
+                        sweep.add(bi)
+        ctx.ob('8a0 removal-anchors', 'anchor', wre.path, 'the removing branch removes the found entry and sweeps the queued tables in a loop', len(first) >= 1 and len(sweep) >= 1, 'first %s sweep %s' % (first, sorted(sweep)))
         for x in first:
-            w = wre.find_path(list(wre.succ(x)), wre.return_blocks(), removed=set(lp['head'] for lp in loops) | core.error_exit_blocks(wre))
+            w = wre.find_path(list(wre.succ(x)), wre.return_blocks(), removed=sweep | core.error_exit_blocks(wre))
             ctx.ob('8a stale-counts-swept-from-every-queued-table', 'K1-must-pass', wre.path,
                    'after the entry was removed from the table it was found in, every success path runs the sweep over the queued older ref-count tables (not only when the entry came from an old table)',
-                   w is None and bool(loops), '' if w is None else 'path without the sweep: ' + lib.short_path(wre, w), wre.loc(x))
+                   w is None and bool(sweep), '' if w is None else 'path without the sweep: ' + lib.short_path(wre, w), wre.loc(x))
     itd = F.body('column::HashColumn::init_table_data')
     if itd:
         lib.empty_slot_skipped(ctx, '7a empty-slot-skipped-not-terminal', itd, 'building the in-memory reference-count cache walks every slot of every ref-count page (an empty slot does not end the page)')
